@@ -114,7 +114,7 @@ def final (s : State) : Bool :=
 def settled (s : State) : Bool :=
   (s.olds ++ s.new.toList).all fun r => r.pods == r.spec && r.avail == r.spec
 /-- the variant: distance of the new RS from `replicas` plus old pods (+1 while the new RS is missing) -/
-def measure (s : State) : Nat :=
+def variant (s : State) : Nat :=
   match s.new with
   | none => s.replicas.natAbs + (oldTotal s).natAbs + 1
   | some r => (s.replicas - r.spec).natAbs + (oldTotal s).natAbs
